@@ -47,7 +47,9 @@ def gen_text(name, arg, rng, size=None):
                                      'x #include <d>\n', '// #include "e.h"\n']))
         elif name == 'line_markers':
             parts.append(rng.choice(['# 1 "f.c"\n', '  #  22 "g.h" 2\n', 'int a;\n', '#define L 3\n', '#1\n', '\n',
-                                     'int a = b #1;\n', '#define C(a) a ## 1\n', 's = "issue #12";\n', 'x # 7\n']))
+                                     'int a = b #1;\n', '#define C(a) a ## 1\n', 's = "issue #12";\n', 'x # 7\n',
+                                     # a marker only if the pattern is allowed to run across line ends
+                                     '#\n', '  #  \n', '12, 13 };\n', '  7\n', '#\n\n 5 "x"\n']))
         elif name == 'lines':
             parts.append(rng.choice(['int a;\n', 'b();\n', '\n', '}\n', 'x = 1;\n']))
         elif name == 'ints':
